@@ -7,7 +7,7 @@ from sa.cfg import cfg_of
 from sa.flow import show, sig, subterms
 from sa.model import AnalysisError, norm, parent, walk_no_nested
 
-from .common import alts, callers_of, commands, is_call, is_plain_iter, need, prov, reach_from
+from .common import include_rules, alts, callers_of, commands, is_call, is_plain_iter, need, prov, reach_from
 
 
 def flatten_func(p):
@@ -169,6 +169,8 @@ def run(report, p):
     ver = need(cmds, "verify")
     r4.check(pl.qual in p.reachable([ver.qual]), ver, ver.node, "verify does not reach the packing-list loader", construct="verify -pl routing")
 
+    # ---- rules shared with other properties (same mechanism, same rule, reported under every property it can break)
+    include_rules(report, p, 'c11', ['R11.m'], 'first-wins per (path, format) rests on the session keeping one entry per format')
     report.not_decided += ["equality of the flattened manifest with an independently computed summary", "outcomes of verify -pl on concrete trees", "histories with nested children or renames (outside the property's premise)"]
 
 
